@@ -6,6 +6,7 @@ mod out;
 mod peers;
 mod raw;
 mod rng;
+mod router;
 mod size;
 mod smoke;
 mod tower;
@@ -38,6 +39,7 @@ fn main() -> anyhow::Result<()> {
         "C07" => wire::run_c07(&mut run, replay.as_deref(), &corpus)?,
         "C04" => peers::run_c04(&mut run, replay.as_deref())?,
         "C05" => peers::run_c05(&mut run, replay.as_deref())?,
+        "C16" => router::run_c16(&mut run, replay.as_deref())?,
         "C18" => tower::run_c18(&mut run, replay.as_deref())?,
         "C19" => tower::run_c19(&mut run)?,
         "C20" => tower::run_c20(&mut run)?,
